@@ -95,6 +95,26 @@ def lookup_sorted(t, key):
     return None
 
 
+def join_all(p, left, right):
+    """mirror of Refl.joinAll / joinGo: left = [(key, row)], right = [(key, row)] (merge, conservative)"""
+    i = 0
+    for bk, b in right:
+        while True:
+            if i >= len(left):
+                return True
+            xk, x = left[i]
+            if xk == bk:
+                if not p(x, b):
+                    return False
+                i += 1
+                break          # consumes the right row too
+            elif bk < xk:
+                break          # next right row
+            else:
+                return False
+    return i >= len(left)
+
+
 def nodup(l):
     return all(l[i] not in l[i + 1:] for i in range(len(l)))
 
@@ -314,7 +334,7 @@ def gen_c17(year, yrec, templates, reg):
                 fid = f'{fid}_{k}'
             i['_fid'] = fid
             for kind, key, label in (('inputs', 'inputs', 'input'), ('lines', 'fields', 'line')):
-                nm = [x['base'] for x in i[key]]
+                nm = sorted([x['base'] for x in i[key]], key=encode)
                 codes = [encode(n) for n in nm]
                 if kind == 'inputs':
                     n_inputs += len(nm)
@@ -322,7 +342,7 @@ def gen_c17(year, yrec, templates, reg):
                     n_lines += len(nm)
                 ident = f'{kind}_{Y}_{fid}'
                 mod.table(ident, 'List Nat', [(str(c), n) for c, n in zip(codes, nm)],
-                          f'{label} names of {i["name"]} in source order')
+                          f'{label} names of {i["name"]} sorted by code, duplicates kept')
                 bad = []
                 wits = []
                 for n, c in zip(nm, codes):
@@ -341,7 +361,7 @@ def gen_c17(year, yrec, templates, reg):
                     if reasons and c not in bad:
                         bad.append(c)
                         wits.append({'what': f'{label} name ' + ', '.join(reasons), 'name': n})
-                ok = nodup(codes) and all(name_ok(c) for c in codes)
+                ok = strict_sorted(codes) and all(name_ok(c) for c in codes)
                 assert ok == (not bad)
                 reg.emit(mod, f'c17_{kind}_clean_{Y}_{fid}', 'C17', Y, i['name'],
                          f'{label} names duplicate-free, lower-case, dot-free', f'namesClean {ident}', ok, wits,
@@ -599,11 +619,10 @@ def gen_c18(year, yrec, templates, reg):
             # targets exist  (mirror of subsetSorted: conservative on duplicates -> evaluate the mirror itself)
             tcodes = [r['code'] for r in trows]
             tset = set(tcodes)
-            missing = [m for m in smaps if m['code'] not in tset]
-            ok_mirror = subset_sorted(mcodes, tcodes)
-            if ok_mirror != (not missing):
-                # duplicates make the merge conservative: report the duplicates as the failing rows
-                missing = missing + [m for m in dd if m not in missing]
+            # mirror of keysSubset (one merge pass): a missing target fails, and so does a repeated one
+            missing = [m for m in smaps if m['code'] not in tset or mcodes.count(m['code']) > 1]
+            assert subset_sorted(mcodes, tcodes) == (not missing)
+            assert subset_sorted([c for c in mcodes if c not in {m['code'] for m in missing}], tcodes)
             emit('every mapping targets a field that exists in the template', 'targets_exist', 'targetsExist', missing,
                  lambda m: {'what': 'target not found in the template' if m['code'] not in tset else 'duplicate target',
                             'expected': 'a terminal field of the template', 'found': None})
@@ -611,53 +630,68 @@ def gen_c18(year, yrec, templates, reg):
             def look(m):
                 return lookup_sorted(ttab, m['code'])
 
+            unjoinable = [m for m in smaps if m['code'] not in tset or mcodes.count(m['code']) > 1]
+            lmaps = [(m['code'], m) for m in smaps]
+
+            def emit_join(check, short, lean_fn, p, applicable, wit, counts=None):
+                """p(mapping, template row) mirrors the Lean predicate; rows without a (unique) partner fail too"""
+                failing = [m for m in smaps if m in unjoinable or not p(m, look(m))]
+                assert join_all(p, lmaps, ttab) == (not failing), (lean_fn, i['name'])
+                badk = {m['code'] for m in failing}
+                assert join_all(p, [(k, m) for k, m in lmaps if k not in badk], ttab)
+
+                def w(m):
+                    if m in unjoinable:
+                        return {'what': 'no unique template field for this target (see targets_exist / no_double_drive)'}
+                    return wit(m)
+                emit(check, short, lean_fn, failing, w, counts=dict(counts or {}, applicable=len(applicable)))
+
             # kinds
-            badk = [m for m in smaps if look(m) is None or not (m['kind'] == look(m)['kind'] and m['kind'] < 4)]
-            emit('the mapping class fits the widget type', 'kinds', 'kindsAgree', badk,
-                 lambda m: {'what': 'mapping class does not fit the widget', 'expected': m['kind_name'],
-                            'found': None if look(m) is None else look(m)['kind']})
+            emit_join('the mapping class fits the widget type', 'kinds', 'kindsAgree',
+                      lambda m, t: m['kind'] == t['kind'] and m['kind'] < 4, smaps,
+                      lambda m: {'what': 'mapping class does not fit the widget', 'expected': m['kind_name'],
+                                 'found': look(m)['kind']})
             # max length
-            def maxlen_bad(m):
-                t = look(m)
-                if t is None or m['kind'] != 0 or t['maxLen'] is None:
-                    return False
-                return m['maxLength'] is None or m['maxLength'] > t['maxLen']
+            def maxlen_p(m, t):
+                if m['kind'] != 0 or t['maxLen'] is None:
+                    return True
+                return m['maxLength'] is not None and m['maxLength'] <= t['maxLen']
             pairs = [m for m in smaps if look(m) is not None and m['kind'] == 0 and look(m)['maxLen'] is not None]
             stats['maxlen_pairs'] += len(pairs)
-            emit('a length-limited widget is driven by a mapping with a limit that is not larger', 'maxlen', 'maxLenOk',
-                 [m for m in smaps if maxlen_bad(m)],
-                 lambda m: {'what': 'template limits the length, mapping declares none or a larger one',
-                            'expected': look(m)['maxLen'], 'found': m['raw_max_length']},
-                 counts={'limited_widgets': len(pairs),
-                         'equal': sum(1 for m in pairs if m['maxLength'] == look(m)['maxLen']),
-                         'stricter': sum(1 for m in pairs if m['maxLength'] is not None and m['maxLength'] < look(m)['maxLen']),
-                         'mapping_limit_without_template_limit': sum(1 for m in smaps if m['kind'] == 0 and look(m) is not None
-                                                                     and look(m)['maxLen'] is None and m['maxLength'] is not None)})
+            emit_join('a length-limited widget is driven by a mapping with a limit that is not larger', 'maxlen', 'maxLenOk',
+                      maxlen_p, pairs,
+                      lambda m: {'what': 'template limits the length, mapping declares none or a larger one',
+                                 'expected': look(m)['maxLen'], 'found': m['raw_max_length']},
+                      counts={'limited_widgets': len(pairs),
+                              'equal': sum(1 for m in pairs if m['maxLength'] == look(m)['maxLen']),
+                              'stricter': sum(1 for m in pairs if m['maxLength'] is not None and m['maxLength'] < look(m)['maxLen']),
+                              'mapping_limit_without_template_limit': sum(
+                                  1 for m in smaps if m['kind'] == 0 and look(m) is not None
+                                  and look(m)['maxLen'] is None and m['maxLength'] is not None)})
             # true values
             btn = [m for m in smaps if m['kind'] == 1 and look(m) is not None]
             stats['buttons'] += len(btn)
-            emit('the value written for a checked box is an on-state of the widget', 'true_values', 'trueValuesOk',
-                 [m for m in btn if m['trueValue'] is None or m['trueValue'] not in look(m)['states']],
-                 lambda m: {'what': 'true value is not an on-state of the widget', 'expected': look(m)['state_names'],
-                            'found': m['true_value']}, counts={'buttons': len(btn)})
+            emit_join('the value written for a checked box is an on-state of the widget', 'true_values', 'trueValuesOk',
+                      lambda m, t: m['kind'] != 1 or (m['trueValue'] is not None and m['trueValue'] in t['states']), btn,
+                      lambda m: {'what': 'true value is not an on-state of the widget', 'expected': look(m)['state_names'],
+                                 'found': m['true_value']}, counts={'buttons': len(btn)})
             # choices
             ch = [m for m in smaps if m['kind'] == 2 and look(m) is not None]
-            emit('every choice a mapping may write is an option of the widget', 'choices', 'choicesOk',
-                 [m for m in ch if not all(c in look(m)['states'] for c in m['choices'])],
-                 lambda m: {'what': 'choice not among the widget options',
-                            'expected': look(m)['state_names'],
-                            'found': [c for c in m['choice_names'] if encode(c) not in look(m)['states']]},
-                 counts={'choice_fields': len(ch)})
+            emit_join('every choice a mapping may write is an option of the widget', 'choices', 'choicesOk',
+                      lambda m, t: m['kind'] != 2 or all(c in t['states'] for c in m['choices']), ch,
+                      lambda m: {'what': 'choice not among the widget options', 'expected': look(m)['state_names'],
+                                 'found': [c for c in m['choice_names'] if encode(c) not in look(m)['states']]},
+                      counts={'choice_fields': len(ch)})
             # labels
             lab = [m for m in smaps if look(m) is not None and m['lineLabel'] is not None and look(m)['label_code'] is not None]
             stats['labelled_pairs'] += len(lab)
-            emit('where the template labels the widget with a line, the mapped line is that line', 'labels', 'labelsAgree',
-                 [m for m in lab if m['lineLabel'] != look(m)['label_code']],
-                 lambda m: {'what': 'template line label differs from the mapped line', 'expected': look(m)['label'],
-                            'found': m['line_label'], 'text': look(m)['text']},
-                 counts={'labelled_pairs': len(lab),
-                         'template_unlabelled': sum(1 for m in smaps if look(m) is not None and look(m)['label_code'] is None),
-                         'line_unlabelled': sum(1 for m in smaps if m['lineLabel'] is None)})
+            emit_join('where the template labels the widget with a line, the mapped line is that line', 'labels', 'labelsAgree',
+                      lambda m, t: m['lineLabel'] is None or t['label_code'] is None or m['lineLabel'] == t['label_code'], lab,
+                      lambda m: {'what': 'template line label differs from the mapped line', 'expected': look(m)['label'],
+                                 'found': m['line_label'], 'text': look(m)['text']},
+                      counts={'labelled_pairs': len(lab),
+                              'template_unlabelled': sum(1 for m in smaps if look(m) is not None and look(m)['label_code'] is None),
+                              'line_unlabelled': sum(1 for m in smaps if m['lineLabel'] is None)})
             # lines exist
             lcodes = sorted({m['line_code'] for m in smaps})
             lname = f'mappingLines_{Y}_{fid}'
